@@ -60,8 +60,56 @@ Definition rev_perm : perm := fun l => rev l.
 Definition old_loop_order_dependent (op tp : list (str * gparam)) : bool :=
   Nat.leb 2 (List.length (diff_keys op tp)).
 
-(* wire: the oracle asks for the model's verdict on a definition *)
+(* ---- the one way the emitted TEXT still varies between processes ----
+   _infer_default leaves a raw ast node as the default when the declared type is str-like and the
+   default is not a constant (C07 class str-typed-code-default-left-as-node); emitters format it with
+   "{}".format(node), which prints the object's address.  The model carries the node as structure (DE e),
+   so the IR it computes is the same in every run; the address is below the model.  Recorded as a class
+   so that the oracle's failures are attributed. *)
+Definition gparam_has_node (p : gparam) : bool :=
+  match g_default p with Some (DE _) => true | _ => false end.
+
+Definition ir_has_node_default (r : ir) : bool :=
+  existsb (fun kv => gparam_has_node (snd kv)) (ir_params r)
+  || match ir_returns r with Has p => gparam_has_node p | _ => false end.
+
+Inductive c12_class : Type := K12_node_default.
+
+Definition c12_class_name (k : c12_class) : str :=
+  match k with K12_node_default => L "raw-ast-node-default-printed-with-its-address" end.
+
+Definition finding_class_C12_ir (r : ir) : option c12_class :=
+  if ir_has_node_default r then Some K12_node_default else None.
+
+Definition finding_class_C12 (d : option ir) (fd : stmt) : option c12_class :=
+  match parse_function id_perm id_perm d fd false true None None with
+  | Ok r => finding_class_C12_ir r
+  | Err _ => None
+  end.
+
+(* every default of the IR has a process-independent text *)
+Definition ir_printable (r : ir) : Prop :=
+  (forall k p, In (k, p) (ir_params r) -> forall e, g_default p <> Some (DE e))
+  /\ (forall p, ir_returns r = Has p -> forall e, g_default p <> Some (DE e)).
+
+(* wire: the oracle asks for the model's verdict on a definition / on an IR *)
 (* FAMILY: run_c12 *)
 Definition run_c12 (fn : sexp) (args : list sexp) : option sexp :=
-  if is_sym "c12_class" fn then Some (sym "none")      (* no finding class: the statement is proved in full *)
+  if is_sym "c12_class" fn then
+    match args with
+    | [d; s] =>
+      match dec_option dec_ir d, dec_stmt s with
+      | Some d, Some fd => Some (enc_option (fun k => enc_str (c12_class_name k)) (finding_class_C12 d fd))
+      | _, _ => None
+      end
+    | _ => None
+    end
+  else if is_sym "c12_class_ir" fn then
+    match args with
+    | [r] => match dec_ir r with
+             | Some r => Some (enc_option (fun k => enc_str (c12_class_name k)) (finding_class_C12_ir r))
+             | None => None
+             end
+    | _ => None
+    end
   else None.
